@@ -40,10 +40,16 @@
 //     structure; every other struct type (time.Time, sync.Mutex, netip.Addr,
 //     dns.Msg, caches, …) is abstract: parameters of such types are dropped and
 //     an expression that reads from them (`req.Question[0].Qtype`) becomes an
-//     extra parameter `e<k>_<name>` holding its value; a local defined once
-//     (`x := e`, e call-free) with such a type is dropped in the same way, and
-//     comparing a call-free expression of such a type with nil is a Bool
-//     parameter;
+//     extra parameter `e<k>_<name>` holding its value;
+//   - a *value* of abstract type (local, result of an opaque call, parameter
+//     that is compared with nil) is modelled by what the code can observe of
+//     it: `AbsPtr` (true = non-nil) for pointers, interfaces, maps, slices, …,
+//     `Unit` otherwise; `&T{…}` of abstract type is non-nil; an assignment to a
+//     field of an abstract object (`resp.Compress = true`) is an effect and is
+//     appended to the trace as `("set resp.Compress", ["true"])`; values read
+//     from abstract objects are re-read (fresh parameters) after any opaque
+//     call or such a write; a field of abstract type of a translated structure
+//     and an element of an abstract slice are read in the same way;
 //   - the spec file may declare such a type *symbolic* ("symbolic":
 //     {"net/netip.Addr": "String", "…/filter.Result": "(Option String)"}): its
 //     values are then carried as values of the given Lean type — `String`: an
@@ -308,11 +314,7 @@ func (t *translator) leanType(ty types.Type) string {
 	case *types.Tuple:
 		var parts []string
 		for i := 0; i < u.Len(); i++ {
-			p := t.leanType(u.At(i).Type())
-			if p == "" {
-				p = "Unit"
-			}
-			parts = append(parts, p)
+			parts = append(parts, t.valType(u.At(i).Type()))
 		}
 		if len(parts) == 0 {
 			return "Unit"
@@ -321,6 +323,24 @@ func (t *translator) leanType(ty types.Type) string {
 	}
 	return ""
 }
+
+// valType is the Lean type of a *value* (local, parameter that is compared with
+// nil, result of an opaque call): the translated type when there is one,
+// `AbsPtr` (its nil-ness: true = non-nil) for pointers, interfaces, maps,
+// channels, functions and slices of abstract type, `Unit` for other abstract
+// values.
+func (t *translator) valType(ty types.Type) string {
+	if lt := t.leanType(ty); lt != "" {
+		return lt
+	}
+	switch ty.Underlying().(type) {
+	case *types.Pointer, *types.Interface, *types.Map, *types.Chan, *types.Signature, *types.Slice:
+		return "AbsPtr"
+	}
+	return "Unit"
+}
+
+func (t *translator) isAbstract(ty types.Type) bool { return t.leanType(ty) == "" }
 
 func sanitize(s string) string {
 	r := strings.NewReplacer(".", "_", "/", "_", "-", "_", "*", "", "(", "", ")", "", "[", "_", "]", "_", " ", "")
@@ -411,6 +431,7 @@ type fctx struct {
 	localFns    map[string]*ast.FuncLit
 	loop        *loopCtx
 	opaqueVals  map[string]string
+	opaqueNodes map[ast.Expr]string
 	opaqueCalls map[*ast.CallExpr]string
 	nonNil      map[types.Object]bool
 }
@@ -614,6 +635,26 @@ func (c *fctx) expr(e ast.Expr) ex {
 	case *ast.SelectorExpr:
 		return c.selector(x)
 	case *ast.UnaryExpr:
+		if cl, ok := x.X.(*ast.CompositeLit); ok && x.Op == token.AND && c.t.isAbstract(c.typeOf(x)) {
+			// a freshly allocated abstract object: non-nil; calls among its
+			// elements are evaluated (for the trace)
+			var xs []ex
+			for _, el := range cl.Elts {
+				v := el
+				if kv, ok := el.(*ast.KeyValueExpr); ok {
+					v = kv.Value
+				}
+				if _, isCall := v.(*ast.CallExpr); isCall {
+					xs = append(xs, c.expr(v))
+				}
+			}
+			return c.bindN(xs, func(s []string) string {
+				if len(s) == 0 {
+					return "true"
+				}
+				return "(Function.const _ true (" + strings.Join(s, ", ") + "))"
+			})
+		}
 		a := c.expr(x.X)
 		if _, isLit := x.X.(*ast.CompositeLit); isLit && x.Op == token.AND && strings.HasPrefix(c.t.leanType(c.typeOf(x)), "(Option S_") {
 			return c.bindN([]ex{a}, func(s []string) string { return "(some " + s[0] + ")" })
@@ -709,15 +750,22 @@ func (c *fctx) structLit(x *ast.CompositeLit, st *types.Struct) ex {
 // opaqueValue turns an expression the subset cannot express (an element of a
 // slice, a field of a library struct) into an extra parameter holding its value.
 func (c *fctx) opaqueValue(e ast.Expr) ex {
-	lt := c.t.leanType(c.typeOf(e))
-	if lt == "" {
-		fail("expression %s has untranslatable type %s", c.show(e), c.typeOf(e))
-	}
+	lt := c.t.valType(c.typeOf(e)) // abstract: what the code can observe of it
 	key := c.show(e)
 	if c.opaqueVals == nil {
 		c.opaqueVals = map[string]string{}
 	}
+	if c.opaqueNodes == nil {
+		c.opaqueNodes = map[ast.Expr]string{}
+	}
+	// the same source expression in the two copies of a duplicated
+	// continuation is one parameter (only one copy runs)
+	if n, ok := c.opaqueNodes[e]; ok {
+		c.opaqueVals[key] = n
+		return ex{code: n}
+	}
 	if n, ok := c.opaqueVals[key]; ok {
+		c.opaqueNodes[e] = n
 		return ex{code: n}
 	}
 	c.nOpaque++
@@ -729,6 +777,7 @@ func (c *fctx) opaqueValue(e ast.Expr) ex {
 	}, strings.NewReplacer("==", "_is_", "!=", "_not_").Replace(sanitize(lastName(key)))))
 	c.opaque = append(c.opaque, fmt.Sprintf("(%s : %s)", name, lt))
 	c.opaqueVals[key] = name
+	c.opaqueNodes[e] = name
 	return ex{code: name}
 }
 
@@ -753,7 +802,7 @@ func (c *fctx) selector(x *ast.SelectorExpr) ex {
 		fail("embedded field path %s", c.show(x))
 	}
 	if c.t.leanType(sel.Obj().Type()) == "" {
-		fail("field %s has untranslatable type %s", c.show(x), sel.Obj().Type())
+		return c.opaqueValue(x) // abstract field of a translated structure
 	}
 	base := c.expr(x.X)
 	f := leanIdent(x.Sel.Name)
@@ -798,8 +847,12 @@ func (c *fctx) binary(x *ast.BinaryExpr) ex {
 			if c.isRecvVal(x.X) {
 				return ex{code: fmt.Sprint(x.Op == token.NEQ)}
 			}
-			if c.t.leanType(tx) == "" && !hasCall(x.X) {
-				return c.opaqueValue(x) // nil-ness of an abstract value: a parameter
+			if c.t.valType(tx) == "AbsPtr" {
+				a := c.expr(x.X)
+				if x.Op == token.NEQ {
+					return a
+				}
+				return c.bindN([]ex{a}, func(s []string) string { return "(!" + s[0] + ")" })
 			}
 			a := c.expr(x.X)
 			m := "isNone"
@@ -947,14 +1000,15 @@ func (c *fctx) call(x *ast.CallExpr) ex {
 				return c.bindN(xs, func(s []string) string { return "(" + s[0] + " ++ [" + strings.Join(s[1:], ", ") + "])" })
 			case "len":
 				at := c.typeOf(x.Args[0])
-				a := c.expr(x.Args[0])
 				if _, ok := at.Underlying().(*types.Slice); ok && c.t.leanType(at) != "" {
+					a := c.expr(x.Args[0])
 					return c.bindN([]ex{a}, func(s []string) string { return "(" + s[0] + ".length : Int)" })
 				}
 				if isString(at) {
+					a := c.expr(x.Args[0])
 					return c.bindN([]ex{a}, func(s []string) string { return "(" + s[0] + ".utf8ByteSize : Int)" })
 				}
-				fail("len of %s", at)
+				return c.opaqueValue(x)
 			case "min", "max":
 				var xs []ex
 				for _, a := range x.Args {
@@ -1062,10 +1116,8 @@ func (c *fctx) call(x *ast.CallExpr) ex {
 		}
 	}
 	// opaque call
-	lt := c.t.leanType(c.typeOf(x))
-	if lt == "" {
-		fail("opaque call %s returns untranslatable type %s", c.show(x), c.typeOf(x))
-	}
+	lt := c.t.valType(c.typeOf(x))
+	c.opaqueVals = nil // an external call may change what abstract objects hold
 	if c.opaqueCalls == nil {
 		c.opaqueCalls = map[*ast.CallExpr]string{}
 	}
@@ -1101,6 +1153,9 @@ func (c *fctx) traceArg(a ast.Expr) (code string) {
 			}
 		}
 	}()
+	if id, ok := a.(*ast.Ident); ok && id.Name == "_" {
+		return code
+	}
 	tv, ok := c.p.info.Types[a]
 	if !ok || tv.Type == nil {
 		return code
@@ -1131,6 +1186,9 @@ func (c *fctx) traceArg(a ast.Expr) (code string) {
 }
 
 func lastName(s string) string {
+	if i := strings.Index(s, "["); i > 0 && strings.HasSuffix(s, "]") && !strings.Contains(s[i:], ".") || i > 0 && strings.HasSuffix(s, "]") && strings.HasPrefix(s[i:], "[*") {
+		s = s[:i] // generic instantiation f[T]
+	}
 	if i := strings.LastIndex(s, "."); i >= 0 {
 		return s[i+1:]
 	}
@@ -1464,7 +1522,7 @@ func (c *fctx) stmts(list []ast.Stmt) string {
 			}
 			for _, n := range vs.Names {
 				z := c.zero(c.p.info.Defs[n].Type())
-				out += fmt.Sprintf("let %s : %s := %s\n", leanIdent(n.Name), c.t.leanType(c.p.info.Defs[n].Type()), z)
+				out += fmt.Sprintf("let %s : %s := %s\n", leanIdent(n.Name), c.t.valType(c.p.info.Defs[n].Type()), z)
 			}
 		}
 		return out + c.stmts(rest)
@@ -1602,6 +1660,14 @@ func (c *fctx) zero(t types.Type) string {
 		return "\"\""
 	case strings.HasPrefix(lt, "(Option"):
 		return "none"
+	case strings.HasPrefix(lt, "(List"):
+		return "[]"
+	}
+	switch c.t.valType(t) {
+	case "AbsPtr":
+		return "false"
+	case "Unit":
+		return "()"
 	}
 	fail("zero value of %s", t)
 	return ""
@@ -1660,6 +1726,28 @@ func (c *fctx) desugarSwitch(x *ast.SwitchStmt) []ast.Stmt {
 }
 
 func (c *fctx) assignStmt(x *ast.AssignStmt, rest []ast.Stmt) string {
+	if len(x.Lhs) == 1 && len(x.Rhs) == 1 && c.abstractTarget(x.Lhs[0]) {
+		op := ""
+		if x.Tok != token.ASSIGN {
+			op = " " + x.Tok.String()
+		}
+		isBuiltin := func(call *ast.CallExpr) bool {
+			id, ok := call.Fun.(*ast.Ident)
+			if !ok {
+				return false
+			}
+			_, b := c.p.info.Uses[id].(*types.Builtin)
+			return b
+		}
+		if call, ok := x.Rhs[0].(*ast.CallExpr); ok && !isBuiltin(call) {
+			// evaluate the call first (for the trace), then record the write
+			e := c.expr(call)
+			return c.withEx(e, func(string) string {
+				return c.abstractWrite(x.Lhs[0], op, &ast.Ident{Name: "_"}, func() string { return c.stmts(rest) })
+			})
+		}
+		return c.abstractWrite(x.Lhs[0], op, x.Rhs[0], func() string { return c.stmts(rest) })
+	}
 	if x.Tok != token.ASSIGN && x.Tok != token.DEFINE {
 		// op=
 		if len(x.Lhs) != 1 {
@@ -1675,12 +1763,6 @@ func (c *fctx) assignStmt(x *ast.AssignStmt, rest []ast.Stmt) string {
 		return c.assign(x.Lhs[0], c.expr(be), rest, nil)
 	}
 	if len(x.Lhs) == len(x.Rhs) {
-		if id, ok := x.Lhs[0].(*ast.Ident); ok && len(x.Lhs) == 1 && x.Tok == token.DEFINE && id.Name != "_" &&
-			c.t.leanType(c.lhsType(id)) == "" && !hasCall(x.Rhs[0]) {
-			// a local of abstract type is dropped like a parameter of such a
-			// type; what is read from it later becomes an opaque value
-			return c.stmts(rest)
-		}
 		if len(x.Lhs) == 1 {
 			return c.assign(x.Lhs[0], c.exprAs(x.Rhs[0], c.lhsType(x.Lhs[0])), rest, nil)
 		}
@@ -1753,6 +1835,33 @@ func (c *fctx) assign(lhs ast.Expr, e ex, rest []ast.Stmt, _ ast.Expr) string {
 }
 
 // assignCode emits `lhs := code` followed by k().
+// abstractTarget reports whether lhs is a field (path) of an abstract object.
+func (c *fctx) abstractTarget(lhs ast.Expr) bool {
+	se, ok := lhs.(*ast.SelectorExpr)
+	if !ok {
+		return false
+	}
+	if id, ok := se.X.(*ast.Ident); ok {
+		if _, isPkg := c.p.info.Uses[id].(*types.PkgName); isPkg {
+			return false
+		}
+	}
+	return c.t.isAbstract(c.typeOf(se.X)) || c.abstractTarget(se.X)
+}
+
+// abstractWrite records an assignment to a field of an abstract object in the trace.
+func (c *fctx) abstractWrite(lhs ast.Expr, op string, rhs ast.Expr, k func() string) string {
+	if !c.trace {
+		fail("assignment to %s, a field of an abstract object (needs trace)", c.show(lhs))
+	}
+	val := c.traceArg(rhs)
+	if val == "\"_\"" {
+		val = fmt.Sprintf("%q", c.show(rhs))
+	}
+	c.opaqueVals = nil
+	return fmt.Sprintf("let tr := tr ++ [(%q, [%s])]\n", "set "+c.show(lhs)+op, val) + k()
+}
+
 func (c *fctx) assignCode(lhs ast.Expr, code string, k func() string) string {
 	switch l := lhs.(type) {
 	case *ast.Ident:
@@ -1875,6 +1984,19 @@ func (t *translator) translate(sp TrFunc) (fo *funcOut) {
 			return true
 		})
 	}
+	nilCompared := map[string]bool{}
+	ast.Inspect(fd.Body, func(n ast.Node) bool {
+		if be, ok := n.(*ast.BinaryExpr); ok && (be.Op == token.EQL || be.Op == token.NEQ) {
+			for _, pair := range [][2]ast.Expr{{be.X, be.Y}, {be.Y, be.X}} {
+				if id, ok := pair[1].(*ast.Ident); ok && id.Name == "nil" {
+					if v, ok := pair[0].(*ast.Ident); ok {
+						nilCompared[v.Name] = true
+					}
+				}
+			}
+		}
+		return true
+	})
 	for i := 0; i < sig.Params().Len(); i++ {
 		v := sig.Params().At(i)
 		lt := t.leanType(v.Type())
@@ -1887,7 +2009,10 @@ func (t *translator) translate(sp TrFunc) (fo *funcOut) {
 			}
 		}
 		if lt == "" {
-			// unused or only passed to opaque calls: drop it
+			if nilCompared[v.Name()] && t.valType(v.Type()) == "AbsPtr" {
+				params = append(params, fmt.Sprintf("(%s : AbsPtr)", leanIdent(v.Name())))
+			}
+			// otherwise unused or only passed to opaque calls: drop it
 			continue
 		}
 		params = append(params, fmt.Sprintf("(%s : %s)", leanIdent(v.Name()), lt))
